@@ -40,8 +40,35 @@ OPS = [
 ]
 
 
+def _quote_ops():
+    from urllib.parse import quote, unquote
+    from .pyload import sx_quote, sx_unquote
+    safe = "!$&'()*+,/:;=?@[] "
+    return [("quote", lambda s: sx_quote(s, safe) if not isinstance(s, str) else quote(s, safe=safe)),
+            ("unquote", lambda s: sx_unquote(s) if not isinstance(s, str) else unquote(s)),
+            ("unq(q)", lambda s: sx_unquote(sx_quote(s, "")) if not isinstance(s, str) else unquote(quote(s, safe="")))]
+
+
+QSTRS = ["a%41b", "%", "%4", "%zz", "a;b=c", "50%", "%25", "tab\there", "%2F%2f", "a b", "%%41"]
+
+
 def run():
     n = 0
+    for s in QSTRS + STRS[:8]:
+        for name, op in _quote_ops():
+            sym, cons = _sym(s, "t")
+            ex = Explorer(timeout_s=20)
+            ex.base = cons
+            got = []
+
+            def on_path(val, ex):
+                assert ex._check() == z3.sat
+                got.append(_norm(val, ex.last_model))
+            st = ex.explore(lambda: op(sym), on_path)
+            want = op(s)
+            if st != "exhausted" or len(got) != 1 or got[0] != want:
+                raise AssertionError(f"urllib model mismatch: {name}({s!r}): real {want!r}, model {got!r} ({st})")
+            n += 1
     for s in STRS:
         for name, op in OPS:
             sym, cons = _sym(s, "t")
